@@ -9,6 +9,8 @@ import Imeta.Lemmas.Exif
 namespace Imeta.Exif
 open Imeta
 
+variable {ex0 : Rec}
+
 /-- two values do not overlap -/
 def Disj (a b : Tag) : Prop := a.off + a.size ≤ b.off ∨ b.off + b.size ≤ a.off
 
@@ -118,6 +120,11 @@ theorem addTag_lay (r : R) (t : Tag) (hl : Lay r.tags) (hpo : r.po ≤ t.off) (h
         · exact Or.inl rfl
         · exact Or.inr hx
 
+theorem addTag_keep (r : R) (t : Tag) : (addTag r t).ex = r.ex ∧ (addTag r t).parsed = r.parsed := by
+  unfold addTag
+  repeat' split
+  all_goals exact ⟨rfl, rfl⟩
+
 /-- entry k of a directory, as the entries loop decodes it -/
 def entryAt (ifd : Ifd) (buf : Bytes) (k : Nat) : Outcome (Option Tag) := slc buf (k * 12) buf.length >>= tagFromBuffer ifd
 
@@ -136,13 +143,13 @@ theorem size_pos_of_outofline (t : Tag) (h1 : t.typ ≠ tIfd) (h2 : t.isEmbedded
   omega
 
 theorem entriesLoop_flat {F : Bytes} (tb : Tables) (ifd : Ifd) (buf : Bytes) (D : Nat) : ∀ (n i : Nat) (r r' : R),
-    Coh F r → Exact F r → r.po ≤ D → r.pos = 0 → Lay r.tags →
+    Coh F r → Exact tb ex0 F r → r.po ≤ D → r.pos = 0 → Lay r.tags →
     (∀ x ∈ r.tags, ∃ k, k < i ∧ entryAt ifd buf k = .ok (some x) ∧ x.isEmbedded = false) → r.tags.length ≤ i → i + n ≤ 83 →
     (∀ k t, k < i + n → entryAt ifd buf k = .ok (some t) → Good F D r.exifLength (readLimit r) t) →
     (∀ k k' t t', k < i + n → k' < i + n → k ≠ k' → entryAt ifd buf k = .ok (some t) → entryAt ifd buf k' = .ok (some t') →
       t.isEmbedded = false → t'.isEmbedded = false → Disj t t') →
     entriesLoop tb ifd buf n i r = .ok r' →
-    Coh F r' ∧ Exact F r' ∧ r'.po = r.po ∧ r'.pos = 0 ∧ r'.exifLength = r.exifLength ∧ readLimit r' = readLimit r ∧ Lay r'.tags ∧
+    Coh F r' ∧ Exact tb ex0 F r' ∧ r'.po = r.po ∧ r'.pos = 0 ∧ r'.exifLength = r.exifLength ∧ readLimit r' = readLimit r ∧ Lay r'.tags ∧
     (∀ x ∈ r'.tags, ∃ k, k < i + n ∧ entryAt ifd buf k = .ok (some x) ∧ x.isEmbedded = false) := by
   intro n
   induction n with
@@ -174,7 +181,7 @@ theorem entriesLoop_flat {F : Bytes} (tb : Tables) (ifd : Ifd) (buf : Bytes) (D 
         obtain ⟨r1, h1, h⟩ := bind_ok h
         have hs := parseTag_quiet tb r r1 t (hg.2.2.1 hemb) h1
         have hc1 : Coh F r1 := ⟨by rw [hs.rest, hs.po]; exact hc.rest, by rw [hs.po]; exact hc.le, hc.small⟩
-        have he1 : Exact F r1 := by intro x hx; rw [hs.reads] at hx; exact he x hx
+        have he1 : Exact tb ex0 F r1 := parseTag_quiet_exact r r1 t (hg.2.2.1 hemb) he h1
         have hl1 : readLimit r1 = readLimit r := by unfold readLimit; rw [hs.buffered]
         have := ih (i + 1) r1 r' hc1 he1 (by rw [hs.po]; exact hD) (by rw [hs.pos]; exact hpos) (by rw [hs.tags]; exact hlay)
           (by rw [hs.tags]; exact hmem') (by rw [hs.tags]; omega) (by omega)
@@ -200,7 +207,7 @@ theorem entriesLoop_flat {F : Bytes} (tb : Tables) (ifd : Ifd) (buf : Bytes) (D 
         have hbuf1 : (addTag r t).buffered = r.buffered := hs.buffered
         have hpos1 : (addTag r t).pos = r.pos := hs.pos
         have hrd1 : (addTag r t).reads = r.reads := hs.reads
-        have he1 : Exact F (addTag r t) := by intro x hx; rw [hrd1] at hx; exact he x hx
+        have he1 : Exact tb ex0 F (addTag r t) := he.transfer hrd1 (addTag_keep r t).1 (addTag_keep r t).2
         have hl1 : readLimit (addTag r t) = readLimit r := by unfold readLimit; rw [hbuf1]
         have hmem1 : ∀ x ∈ (addTag r t).tags, ∃ k, k < i + 1 ∧ entryAt ifd buf k = .ok (some x) ∧ x.isEmbedded = false := by
           intro x hx
@@ -222,7 +229,7 @@ the directory (count, 12-byte entries, next-IFD pointer) inside the file and the
 out-of-line values pairwise disjoint: readIfdHeader leaves a coherent reader, an exact read record, and a pending queue
 that is a forward chain. -/
 theorem readIfdHeader_flat {F : Bytes} (tb : Tables) (ifd : Ifd) (r r1 : R) (e1 : Option ErrKind) (cnt : Nat)
-    (hc : Coh F r) (he : Exact F r) (htags : r.tags = []) (hpos : r.pos = 0)
+    (hc : Coh F r) (he : Exact tb ex0 F r) (htags : r.tags = []) (hpos : r.pos = 0)
     (hF : r.po + 2 + 12 * cnt + 4 ≤ F.length) (hx : r.po + 2 + 12 * cnt + 4 ≤ r.exifLength)
     (hcnt : u16 ifd.order ((F.drop r.po).take 2) = .ok cnt) (hc83 : cnt ≤ 83) (hlim : 12 * cnt ≤ readLimit r)
     (hgood : ∀ k t, k < cnt → entryAt ifd ((F.drop (r.po + 2)).take (cnt * 12)) k = .ok (some t) →
@@ -231,7 +238,7 @@ theorem readIfdHeader_flat {F : Bytes} (tb : Tables) (ifd : Ifd) (r r1 : R) (e1 
       entryAt ifd ((F.drop (r.po + 2)).take (cnt * 12)) k' = .ok (some t') → t.isEmbedded = false → t'.isEmbedded = false → Disj t t')
     (hnext : ifd.typ = ifd0 → u32 ifd.order ((F.drop (r.po + 2 + 12 * cnt)).take 4) = .ok 0)
     (h : readIfdHeader tb r ifd = .ok (r1, e1)) :
-    Coh F r1 ∧ Exact F r1 ∧ Chain F r1.exifLength (readLimit r1) r1.po (r1.tags.drop r1.pos) := by
+    Coh F r1 ∧ Exact tb ex0 F r1 ∧ Chain F r1.exifLength (readLimit r1) r1.po (r1.tags.drop r1.pos) := by
   have hl4 := readLimit_ge r
   -- the two reads of the directory
   have hr2 := fastRead_exact hc 2 (by omega) (by omega) (by omega)
@@ -256,7 +263,7 @@ theorem readIfdHeader_flat {F : Bytes} (tb : Tables) (ifd : Ifd) (r r1 : R) (e1 
   dsimp only at h
   obtain ⟨r3, hloop, hnx⟩ := bind_ok h
   rw [hbuf3] at hloop
-  have hE3 : Exact F (fastRead (fastRead r 2).r (cnt * 12)).r := by intro x hx; rw [hk3.reads] at hx; exact he x hx
+  have hE3 : Exact tb ex0 F (fastRead (fastRead r 2).r (cnt * 12)).r := he.keep hk3
   have hflat := entriesLoop_flat (F := F) tb ifd _ (r.po + 2 + 12 * cnt + 4) cnt 0 _ r3 hc3 hE3 (by rw [hpo3]; omega)
     (by rw [hk3.pos]; exact hpos) (by rw [hk3.tags, htags]; unfold Lay; simp) (by rw [hk3.tags, htags]; intro x hx; cases hx)
     (by rw [hk3.tags, htags]; simp) (by omega)
@@ -300,7 +307,7 @@ theorem readIfdHeader_flat {F : Bytes} (tb : Tables) (ifd : Ifd) (r r1 : R) (e1 
     rw [if_neg hno] at hnx
     simp only [Outcome.ok.injEq, Prod.mk.injEq] at hnx
     rw [← hnx.1]
-    refine ⟨hc5, by intro x hx; rw [hk5.reads] at hx; exact he4 x hx, ?_⟩
+    refine ⟨hc5, he4.keep hk5, ?_⟩
     have hl5 : readLimit (fastRead r3 4).r = readLimit r := by unfold readLimit at hlim4 ⊢; rw [hk5.buffered]; exact hlim4
     rw [hk5.exl, hexl4, hl5, hr5.2.2, hpo4, hk5.tags, hk5.pos, hpos4]
     exact hchain _ (by omega)
@@ -326,9 +333,9 @@ structure FlatDir (F : Bytes) (ifd : Ifd) (d cnt exl lim : Nat) : Prop where
 /-- readIfd on a flat directory in a forward layout: whatever it returns, the reader is coherent with the file and every
 read it made succeeded with exactly the bytes its tag points at -/
 theorem readIfd_flat {F : Bytes} (tb : Tables) (fuel : Nat) (ifd : Ifd) (r r' : R) (e : Option ErrKind) (cnt : Nat)
-    (hc : Coh F r) (he : Exact F r) (htags : r.tags = []) (hpos : r.pos = 0)
+    (hc : Coh F r) (he : Exact tb ex0 F r) (htags : r.tags = []) (hpos : r.pos = 0)
     (hd : FlatDir F ifd r.po cnt r.exifLength (readLimit r))
-    (h : readIfd tb fuel r ifd = .ok (r', e)) : Coh F r' ∧ Exact F r' := by
+    (h : readIfd tb fuel r ifd = .ok (r', e)) : Coh F r' ∧ Exact tb ex0 F r' := by
   unfold Exif.readIfd at h
   obtain ⟨p, hp, h⟩ := bind_ok h
   obtain ⟨r1, e1⟩ := p
@@ -345,13 +352,13 @@ theorem decodeTiff_flat (tb : Tables) (F : Bytes) (buffered : Bool) (h : Hdr) (c
     (hsmall : F.length < 2 ^ 32)
     (hd : FlatDir F { off := 0, base := 0, order := h.order, typ := h.firstIfdType, idx := 0 } h.firstIfd cnt (4 * 1024 * 1024)
       (if buffered then bufioSize else scratchSize))
-    (hres : decodeTiff tb F buffered h = .ok (r', e)) : Coh F r' ∧ Exact F r' := by
+    (hres : decodeTiff tb F buffered h = .ok (r', e)) : Coh F r' ∧ Exact tb { imageType := h.imageType } F r' := by
   unfold Exif.decodeTiff at hres
   dsimp only at hres
   have hc0 : Coh F { rest := F, po := 0, exifLength := 4 * 1024 * 1024, buffered := buffered, ex := { imageType := h.imageType } } :=
     ⟨by simp, Nat.zero_le _, hsmall⟩
-  have he0 : Exact F { rest := F, po := 0, exifLength := 4 * 1024 * 1024, buffered := buffered, ex := { imageType := h.imageType } } := by
-    intro x hx; cases hx
+  have he0 : Exact tb { imageType := h.imageType } F { rest := F, po := 0, exifLength := 4 * 1024 * 1024, buffered := buffered, ex := { imageType := h.imageType } } :=
+    Exact.init tb F { rest := F, po := 0, exifLength := 4 * 1024 * 1024, buffered := buffered, ex := { imageType := h.imageType } } rfl rfl
   have hF := hd.inFile
   have hX := hd.inExif
   have hde := discard_exact hc0 h.firstIfd (by simp only; omega) (by simp only; omega)
@@ -362,12 +369,12 @@ theorem decodeTiff_flat (tb : Tables) (F : Bytes) (buffered : Bool) (h : Hdr) (c
     rename_i r1 e1 hdd
     rw [hdd] at hcd hkd
     rw [← hres.1]
-    exact ⟨hcd, by intro x hx; rw [hkd.reads] at hx; cases hx⟩
+    exact ⟨hcd, he0.keep hkd⟩
   · rename_i r1 hdd
     rw [hdd] at hcd hkd hde
     dsimp only at hde hcd hkd
     have hpo : r1.po = h.firstIfd := by rw [hde.2]; simp
-    apply readIfd_flat tb _ _ r1 r' e cnt hcd (by intro x hx; rw [hkd.reads] at hx; cases hx) hkd.tags hkd.pos _ hres
+    apply readIfd_flat tb _ _ r1 r' e cnt hcd (he0.keep hkd) hkd.tags hkd.pos _ hres
     rw [hpo, hkd.exl]
     have : readLimit r1 = (if buffered then bufioSize else scratchSize) := by unfold readLimit; rw [hkd.buffered]
     rw [this]
